@@ -30,6 +30,9 @@ def sample(sim, prog, tag, unit):
 
 
 def sym_unit_struct(sim, prog):
+    from program import units_enabled
+    if not units_enabled(prog):
+        return Struct(Q.unit_ty(prog), ())
     return Struct(Q.unit_ty(prog), (Sym("U.m", prim("i8")), Sym("U.s", prim("i8"))))
 
 
@@ -78,6 +81,7 @@ def reference(name, k, TAGS=TAGS):
     raise KeyError(name)
 
 
+UNITS_ON = [True]
 EXPECTED_UNIT = {"AccelerationToState": (1, -2), "VelocityToState": (1, -1), "PositionToState": (1, 0)}
 
 
@@ -119,7 +123,7 @@ def check_stream(chk, prog, sim, name):
                     chk.violation("C10.panic", "%s:%s" % (key, leaf.kind), "%s::update sample %d: %s %s" % (name, k, leaf.kind, leaf.info.get("msg")), fn=up["pretty"])
                     ok = False
                     continue
-                if name in EXPECTED_UNIT:
+                if name in EXPECTED_UNIT and UNITS_ON[0]:
                     eu = EXPECTED_UNIT[name]
                     if not (rel_allowed(sim, leaf.state, Sym("U.m"), Const(eu[0])) <= {"="} and rel_allowed(sim, leaf.state, Sym("U.s"), Const(eu[1])) <= {"="}):
                         chk.violation("C10.units", key + ":gate", "%s::update accepts a sample whose unit may differ from %s (path %s)" % (name, eu, leaf.pc), fn=up["pretty"], file=loc(up["span"]))
@@ -160,7 +164,7 @@ def check_stream(chk, prog, sim, name):
                             got = {"value": A.to_sympy(payload.fields[0])}
                             ex = Q.unit_exps(sim, gl.state, payload.fields[1])
                             want = (Sym("U.m"), int_add(Sym("U.s"), Const(-1 if name == "DerivativeStream" else 1)))
-                            if ex != want:
+                            if UNITS_ON[0] and ex != want:
                                 chk.violation("C10.units", "%s:unit:%d" % (key, k), "%s: output unit exponents %r, expected %r" % (name, ex, want), fn=up["pretty"], file=loc(up["span"]))
                                 ok = False
                         else:
@@ -182,7 +186,7 @@ def check_stream(chk, prog, sim, name):
             chk.violation("C10.staging", key + ":stuck", "%s: no returning path after sample %d" % (name, k))
             ok = False
             break
-    if name in EXPECTED_UNIT and not saw_unit_panic:
+    if name in EXPECTED_UNIT and not saw_unit_panic and UNITS_ON[0]:
         chk.violation("C10.units", key + ":no-unit-check", "%s::update never panics on a wrongly dimensioned sample (dimension checking is enabled in this configuration)" % name,
                       fn=up["pretty"], file=loc(up["span"]))
         ok = False
@@ -200,7 +204,7 @@ def check_interleaved(chk, prog, sim, name):
     up = prog.find_fn(name="update", self_name=name, trait="Updatable")
     get = prog.find_fn(name="get", self_name=name, trait="Getter")
     ug, gg = sim.identity_gargs(up), sim.identity_gargs(get)
-    unit = Struct(Q.unit_ty(prog), tuple(Const(x, prim("i8")) for x in EXPECTED_UNIT.get(name, (1, 0))))
+    unit = Q.unit_value(sim, prog, *EXPECTED_UNIT.get(name, (1, 0)))
     ok = True
     for ev in ("E", "N"):
         script = [("S", "a"), ("S", "b"), (ev, "x"), ("S", "c"), ("S", "d")]
@@ -259,6 +263,8 @@ def run(chk):
     chk.rule("C10.units", "output units U/s, U*s; to-state unit gate panics iff unit differs")
     chk.rule("C10.events", "an absent/error event in the middle of a run resets (or is ignored) as documented: later outputs equal those of the remaining samples alone")
     chk.rule("C10.shift", "affine-time typing: only time differences are converted to float")
+    from program import units_enabled
+    UNITS_ON[0] = units_enabled(prog)
     sim = S.Sim(prog)
     for name in ("DerivativeStream", "IntegralStream", "AccelerationToState", "VelocityToState", "PositionToState"):
         if not prog.has_adt(name):
